@@ -686,3 +686,38 @@ free piece:
 +--------+-------+-------------+-----------------------------------+
 ```
 */
+
+#[cfg(abyssiniandb_verif)]
+pub mod verif_probe {
+    //! verification hooks: thin wrappers that *call* the private items of this file.
+    use super::*;
+    pub const HEADER_SZ: u64 = DAT_HEADER_SZ;
+    pub fn piece_mgr() -> PieceMgr {
+        PieceMgr::new(&REC_SIZE_FREE_OFFSET, &REC_SIZE_ARY)
+    }
+    pub fn var_file(buf: rabuf::BufFile) -> VarFile {
+        VarFile::verif_from_buf(piece_mgr(), buf)
+    }
+    pub fn key_file<KT: DbMapKeyType>(file: VarFile) -> KeyFile<KT> {
+        KeyFile(Rc::new(RefCell::new(VarFileKeyCache(file, PhantomData))))
+    }
+    pub fn with_var_file<KT: DbMapKeyType, R>(
+        kf: &KeyFile<KT>,
+        f: impl FnOnce(&mut VarFile) -> R,
+    ) -> R {
+        let mut l = kf.0.borrow_mut();
+        f(&mut l.0)
+    }
+    pub fn write_init_header(f: &mut VarFile, sig2: [u8; 8]) -> Result<()> {
+        write_keyrecf_init_header(f, sig2)
+    }
+    pub fn check_header(f: &mut VarFile, sig2: [u8; 8]) -> Result<()> {
+        check_keyrecf_header(f, sig2)
+    }
+    /// the crate's own slot-size decision for a key piece:
+    /// (estimated size-field bytes, remaining encoded bytes, chosen slot size)
+    pub fn slot_size<KT: DbMapKeyType>(p: &KeyPiece<KT>) -> (u32, u32, u32) {
+        let (a, b, _) = p.encoded_piece_size();
+        (a, b, piece_mgr().roundup(KeyPieceSize::new(a + b)).as_value())
+    }
+}
